@@ -9,5 +9,5 @@ def knobs(r, i):
 
 def run(v, tier, seed, replay):
     seqcheck.run(v, tier, seed, replay, "C11", ["C11"], tree_oracles=["no_panic", "contexts", "tree", "ids"], knobs=knobs, extra_cases=c05.extra,
-                 n_quick=(700, 150), n_thorough=(80000, 10000),
+                 n_quick=(2100, 450), n_thorough=(80000, 10000),
                  nontrivial=lambda lines, tr: any(c is not None for c in tr.ctx.values()))
